@@ -149,6 +149,19 @@ def run_cell(cell, seed):
     tol = 64 * e32 * (G * mx + b)
     okc, d, ratio, _ = cmp_lists('float32 vs float64', [t.double() for t in y32], y64, tol)
     out.append(res(HELD, case, 'M-F32', ratio=ratio) if okc else res(VIOLATED, case, 'M-F32', d, ratio=ratio))
+    # the same comparison at low amplitude (absolute floors / epsilons that depend on the dtype show here)
+    for amp in (1e-4, 1e-7):
+        case = dict(base, check='f32 vs f64, low amplitude', amplitude=amp)
+        xl32 = [(x * amp).float() for x in xs64]
+        xl64 = [x.double() for x in xl32]
+        ok_a, ya = util.call_lib(A64.apply, xl64)
+        ok_b, yb = util.call_lib(A32.apply, xl32)
+        if ok_a and ok_b:
+            mxl = max(float(x.abs().max()) for x in xl64)
+            okc, d, ratio, _ = cmp_lists('float32 vs float64', [t.double() for t in yb], ya, 64 * e32 * (G * mxl + b))
+            out.append(res(HELD, case, 'M-F32', ratio=ratio) if okc else res(VIOLATED, case, 'M-F32', d, ratio=ratio))
+        elif ok_a != ok_b:
+            out.append(res(VIOLATED, case, 'M-F32', 'one precision raised on a low-amplitude input'))
     # converted modules
     case = dict(base, check='.float() of f64-built vs f32-built')
     ok, yc = util.call_lib(A64f.apply, xs32)
